@@ -56,17 +56,22 @@ Proof. exact future_indistinguishable. Qed.
 Print Assumptions faulted_object_indistinguishable_from_twin.
 
 (* Non-vacuity: a history in which faults fire in an item validator (3rd item of an extend), in a dict
-   value validator, in the second adapter factory, in a default factory and in a handler. *)
+   value validator, in the second adapter factory, in a default factory and in a handler;
+   then a rejected assignment to the PrototypedFrom attribute, which must leave the link to the prototype intact. *)
 Example faults_fire :
-  let s0 := mkSt 1 (1, 2) [1; 2] [(1, 1)] [1] None None 3 None 7 None (-1) 1%nat [] (-5) in
+  let s0 := mkSt 1 (1, 2) [1; 2] [(1, 1)] [1] None None 3 None 7 None (-1) 1%nat [] (-5) None 1 in
   let h := [(LExtend [4; 5; 6], FaultCall 2 ValueError); (DUpdate [(1, 2); (3, 4)], FaultCall 3 RuntimeError);
             (SetAd 2 3, FaultCall 1 AttributeError); (ReadF, FaultCall 0 TraitError);
             (SetX 5, FaultHandler 1 ValueError); (LAppend 9, NoFault);
             (ObsRemove, FaultCall 17 RuntimeError); (AddZ, NoFault); (SetZ 0 4, NoFault); (ObsRemove, NoFault);
-            (ObsRemove, NoFault); (SetZ 0 6, NoFault)] in
+            (ObsRemove, NoFault); (SetZ 0 6, NoFault);
+            (SetPV 5, FaultCall 0 ValueError); (SetDPV 4, NoFault); (SetPV 6, NoFault); (SetDPV 8, NoFault);
+            (DelPV, FaultHandler 9 ValueError); (SetDPV 2, NoFault)] in
   map (fun st => let '(_, _, fr, oa, _) := st in (fr, o_out oa, length (o_log oa))) (run2 d_vld d_getter 41 42 d_adapt 43 (d_fcalls 38 2) s0 s0 h)
   = [(true, Raise ValueError, 0%nat); (true, Raise RuntimeError, 0%nat); (true, Raise AttributeError, 0%nat);
      (true, Raise TraitError, 0%nat); (true, Ok, 2%nat); (false, Ok, 2%nat);
      (true, Raise RuntimeError, 0%nat); (false, Ok, 0%nat); (false, Ok, 1%nat); (false, Ok, 0%nat);
-     (false, Raise NotifierNotFound, 0%nat); (false, Ok, 0%nat)].
+     (false, Raise NotifierNotFound, 0%nat); (false, Ok, 0%nat);
+     (true, Raise ValueError, 0%nat); (false, Ok, 1%nat); (false, Ok, 1%nat); (false, Ok, 0%nat);
+     (true, Ok, 0%nat); (false, Ok, 1%nat)].
 Proof. vm_compute. reflexivity. Qed.
